@@ -29,6 +29,9 @@ def build(ub, algebra_text):
         ub.emit_fn(CTX, b, "stub")
     ub.emit_fn("patronus/src/expr/types.rs", "get_bv_type", "stub", spec_key="ExprRef::get_bv_type")
     src = ub.src(PARSER)
+    # the n-ary plumbing uses iterator adapters (outside the dialect): ASSUMED to apply the arm's closure to the two operands
+    # (Binary), resp. to fold left (LeftAssoc); pinned by hash
+    ub.pin_assumed_fn(PARSER, "bin_op", None, "assumed: Binary applies op(a, b) to exactly two operands; LeftAssoc folds left")
     item = src.find_fn("parse_pattern")
     arms = match_arms(item.body, find_match(item.body, 0, "pattern"))
     ub.arm_notes = []
